@@ -249,15 +249,19 @@ pub fn parse_proj(definition: &str) -> Result<String, Error> {
     if definition.contains('|') | !definition.contains("proj") {
         return Ok(definition.to_string());
     }
-    // Impose some line ending sanity and remove the PROJ '+' prefix
-    let all = definition
-        .replace("\r\n", "\n")
-        .replace('\r', "\n")
-        .replace(" +", " ")
-        .replace("\n+", "\n")
-        .trim()
-        .trim_start_matches('+')
-        .to_string();
+    // Impose some line ending sanity and remove the PROJ '+' prefix, i.e. a '+'
+    // following any kind of whitespace (blank, tab, line break, ...)
+    let mut all = String::new();
+    let mut after_whitespace = false;
+    for c in definition.replace("\r\n", "\n").replace('\r', "\n").chars() {
+        if c == '+' && after_whitespace {
+            after_whitespace = false;
+            continue;
+        }
+        after_whitespace = c.is_whitespace();
+        all.push(c);
+    }
+    let all = all.trim().trim_start_matches('+').to_string();
 
     // Collect the PROJ string
     let mut trimmed = String::new();
